@@ -102,7 +102,7 @@ func (s *JoiningSource) run() error {
 	if fileSrc == nil {
 		return fmt.Errorf("cannot run joining_source: start_block %d (cursor %s) not found",
 			s.startBlockNum,
-			s.cursor.String())
+			s.cursor) // not s.cursor.String(): the cursor is nil when starting from a block number
 	}
 
 	if !s.shutdownWith(fileSrc) {
